@@ -24,27 +24,8 @@ running out of fuel is reported as an error, never silently.
 Core Lean only (loaded by the driver).
 -/
 import Sc3Verif.C01.GenOpcodes
+import Sc3Verif.C01.GenShortcuts
 namespace Sc3Verif.C01
-
-inductive Rate where
-  | scalar | control | audio | demand
-deriving DecidableEq, Repr, Inhabited
-
-/-- `_rate_number` -/
-def Rate.num : Rate → Nat
-  | .audio => 2 | .control => 1 | .demand => 3 | .scalar => 0
-
-/-- rank of the rate *name* in string order ('audio' < 'control' < 'demand' < 'scalar'):
-    what `list.sort(key=rate name)` and `utl.list_min` of rate names see. -/
-def Rate.nameOrd : Rate → Nat
-  | .audio => 0 | .control => 1 | .demand => 2 | .scalar => 3
-
-/-- A value as stored in `UGen.inputs`. -/
-inductive Inp where
-  | num (q : Rat)                      -- int / float
-  | out (o : Nat) (k : Nat) (proxy : Bool)  -- UGen object `o` (proxy: OutputProxy #k of MultiOutUGen `o`)
-  | bad                                -- None / NaN / str: `_is_valid_ugen_input()` is False
-deriving DecidableEq, Repr, Inhabited
 
 inductive Kind where
   | atom | unop | binop | muladd | sum3 | sum4
@@ -179,9 +160,6 @@ def newObj (x : Obj) (widthFirst : Bool := false) : M Nat := do
                  widthFirst := if widthFirst then s.widthFirst ++ [o] else s.widthFirst }
   pure o
 
-def isNum (i : Inp) (q : Rat) : Bool := match i with | .num x => x == q | _ => false
-def isAnyNum : Inp → Bool | .num _ => true | _ => false
-
 /-- `_build_op_dict`: name ↦ (special index, canonical server name); a later entry wins,
     as in a Python dict. -/
 def buildOpDict (l : List (List String)) : List (String × Nat × String) :=
@@ -215,38 +193,6 @@ def pyNeg : Inp → M Inp
   | .num q => pure (.num (-q))
   | .bad => throw .typeError
   | a => mkUnop "neg" a
-
-/-- what a constructor decides to return -/
-inductive Plan where
-  | ret (i : Inp)          -- return this value unchanged
-  | neg (i : Inp)          -- return `-i`
-  | generic                -- build the unit
-deriving Repr, DecidableEq
-
-/-- the shortcut chain of `BinaryOpUGen._new1` (pure decision) -/
-def binopPlan (op : String) (a b : Inp) : Plan :=
-  if !isAnyNum a && !isAnyNum b then .generic
-  else if op == "*" then
-    if isNum a 0 then .ret (.num 0)
-    else if isNum b 0 then .ret (.num 0)
-    else if isNum a 1 then .ret b
-    else if isNum a (-1) then .neg b
-    else if isNum b 1 then .ret a
-    else if isNum b (-1) then .neg a
-    else .generic
-  else if op == "+" then
-    if isNum a 0 then .ret b
-    else if isNum b 0 then .ret a
-    else .generic
-  else if op == "-" then
-    if isNum a 0 then .neg b
-    else if isNum b 0 then .ret a
-    else .generic
-  else if op == "/" then
-    if isNum b 1 then .ret a
-    else if isNum b (-1) then .neg a
-    else .generic
-  else .generic
 
 /-- `BinaryOpUGen.new(op, a, b)` (→ `_multi_new` → `_new1`), at least one operand a UGen. -/
 def mkBinop (op : String) (a b : Inp) : M Inp := do
@@ -283,28 +229,6 @@ def canBeMulAdd (i m a : Inp) : M Bool := do
     pure (ri = some .control && (rm = some .control || rm = some .scalar)
           && (ra = some .control || ra = some .scalar))
 
-inductive MAPlan where
-  | ret (i : Inp) | neg (i : Inp) | mul (i m : Inp) | sub (a i : Inp) | add (i a : Inp)
-  | muladd (i m a : Inp) | mulThenAdd (i m a : Inp)
-deriving Repr, DecidableEq
-
-/-- the decision chain of `MulAdd._new1`; `c1 = _can_be_muladd(input, mul, add)`,
-    `c2 = _can_be_muladd(mul, input, add)` -/
-def mulAddPlan (i m a : Inp) (c1 c2 : Bool) : MAPlan :=
-  if isNum m 0 then .ret a
-  else
-    let minus := isNum m (-1)
-    let nomul := isNum m 1
-    let noadd := isNum a 0
-    if nomul && noadd then .ret i
-    else if minus && noadd then .neg i
-    else if noadd then .mul i m
-    else if minus then .sub a i
-    else if nomul then .add i a
-    else if c1 then .muladd i m a
-    else if c2 then .muladd m i a
-    else .mulThenAdd i m a
-
 /-- `MulAdd.new(input, mul, add)` -/
 def mkMulAdd (i m a : Inp) : M Inp := do
   let rate ← listRate [i, m, a]
@@ -339,25 +263,6 @@ def mkSumN (cls : String) (kind : Kind) (l : List Inp) : M Inp := do
   let sorted ← sortByRate l
   let o ← newObj { cls := cls, kind := kind, rate := rate, inputs := sorted }
   pure (.out o 0 false)
-
-inductive SumPlan where
-  | add2 (a b : Inp) | sum3 (a b c : Inp) | sum4 (a b c d : Inp)
-deriving Repr, DecidableEq
-
-/-- zero dropping of `Sum3._new1` -/
-def sum3Plan (a b c : Inp) : SumPlan :=
-  if isNum c 0 then .add2 a b
-  else if isNum b 0 then .add2 a c
-  else if isNum a 0 then .add2 b c
-  else .sum3 a b c
-
-/-- zero dropping of `Sum4._new1` (falls into `Sum3._new1`) -/
-def sum4Plan (a b c d : Inp) : SumPlan :=
-  if isNum a 0 then sum3Plan b c d
-  else if isNum b 0 then sum3Plan a c d
-  else if isNum c 0 then sum3Plan a b d
-  else if isNum d 0 then sum3Plan a b c
-  else .sum4 a b c d
 
 def execSumPlan : SumPlan → M Inp
   | .add2 a b => pyArith "+" a b
